@@ -339,6 +339,17 @@ func popLastExtraOpt(m msgT) msgT {
 	return out
 }
 
+// refreshBroken is set once a mandatory refresh was not seen within its generous
+// limit; later waits are cut short so that a broken tree still produces its cases quickly.
+var refreshBroken atomic.Bool
+
+func patience(d time.Duration) time.Duration {
+	if refreshBroken.Load() {
+		return 50 * time.Millisecond
+	}
+	return d
+}
+
 func frac() time.Duration { return time.Duration(time.Now().Nanosecond()) }
 
 // alignSecond returns when the wall clock is between 20 and 550 ms into a second.
@@ -411,7 +422,7 @@ func runSeq(sc seqCase) (obs []string, desc map[string]any, missing bool, ok boo
 				stale++
 				// a refresh has been requested; see it start. Only a hit that follows an earlier
 				// refresh of the same question may instead have joined that one while it finishes.
-				limit := 5 * time.Second
+				limit := patience(5 * time.Second)
 				if refreshed[o.k] {
 					limit = 1500 * time.Millisecond
 				}
@@ -424,6 +435,7 @@ func runSeq(sc seqCase) (obs []string, desc map[string]any, missing bool, ok boo
 					time.Sleep(300 * time.Microsecond)
 				case <-time.After(limit):
 					if !refreshed[o.k] {
+						refreshBroken.Store(true)
 						for len(obs) < len(sc.ops) {
 							obs = append(obs, "BNone")
 						}
@@ -639,12 +651,13 @@ func emitBurst(w *hx.Writer, id string, nk, n int, refreshTTL int64) {
 	// every Exec has returned, so every DoChan has been issued: each key's first
 	// refresh is blocked on release. Wait for one start per key (blocked = bug).
 	seen := 0
-	timeout := time.After(20 * time.Second)
+	timeout := time.After(patience(20 * time.Second))
 	for seen < nk {
 		select {
 		case <-startSig:
 			seen++
 		case <-timeout:
+			refreshBroken.Store(true)
 			seen = nk + 1000
 		}
 	}
@@ -658,12 +671,12 @@ func emitBurst(w *hx.Writer, id string, nk, n int, refreshTTL int64) {
 	for i := 0; i < nk; i++ {
 		select {
 		case <-doneSig:
-		case <-time.After(20 * time.Second):
+		case <-time.After(patience(20 * time.Second)):
 		}
 	}
 	// follow-up on key 0
 	follow := 0
-	deadline := time.Now().Add(20 * time.Second)
+	deadline := time.Now().Add(patience(20 * time.Second))
 	if refreshTTL > 0 {
 		// the refreshed entry must become visible: poll until a fresh hit shows the new TTL
 		for time.Now().Before(deadline) {
